@@ -582,6 +582,12 @@ pub fn run(tier: &str, seed: u64) -> i32 {
     report.add(explore(&d, &budget, seed, |s, ctx| {
         for (prog, _) in arms_programs(&s.expr) {
             let base = elaborate(&prog).registry;
+            // the quantifier: base registries with unique paths (G<G<u8>> has two entries at p::a::G)
+            let mut paths = std::collections::BTreeSet::new();
+            if base.types.iter().filter(|t| t.ty.path.segments.len() >= 2).any(|t| !paths.insert(t.ty.path.segments.clone())) {
+                ctx.exclude("base registry has two entries with one path (outside the quantifier of the fault clause)");
+                continue;
+            }
             for f in faults_of(&base) {
                 check_fault(&prog, &base, &f, ctx);
             }
